@@ -70,7 +70,8 @@ RegistryRepr(ps) == LET rs == ReprList(ps) IN IF rs = <<>> THEN "None" ELSE Join
 (*************************** the pipeline of this module *******************)
 \*   a (no group, JSON)   <-   g:b (group g, numpy)   <-   h:g:c (groups h:g, pandas; inputs a and g:b)
 \*   d (directory data) on a;  a2 (no parameters);  e on a and a2 (names that are prefixes of one another);
-\*   f (parameters, but none persisted when z is at its default);  m (in-memory) on a;  n on m.
+\*   f (parameters, but none persisted when z is at its default);  m (in-memory) on a;  n on m;
+\*   h (a string parameter declared with dtype=str whose value holds a placeholder).
 \*   Inputs enter the key as  <name relative to own namespace>=<key of input>, sorted by the input's full name
 \*   (BEFORE formatting), joined by ###.
 VARIABLES va,     \* value of a's parameter x
@@ -85,6 +86,7 @@ ParamsOf(task) ==
                        [name |-> "z", value |-> Int_(zv), default |-> <<Int_(1)>>, ignore |-> FALSE, dpd |-> TRUE]>>
     [] task = "f" -> <<[name |-> "v", value |-> Int_(7), default |-> <<Int_(0)>>, ignore |-> TRUE, dpd |-> FALSE],
                        [name |-> "z", value |-> Int_(zv), default |-> <<Int_(1)>>, ignore |-> FALSE, dpd |-> TRUE]>>
+    [] task = "h" -> <<[name |-> "s", value |-> [t |-> "rstr", v |-> "{A}/s"], default |-> <<>>, ignore |-> FALSE, dpd |-> FALSE]>>
     [] OTHER -> <<>>
 \* inputs in the order of their full names
 InputsOf(task) == CASE task = "b" -> <<<<"a", "a">>>> [] task = "c" -> <<<<"a", "a">>, <<"g:b", "b">>>>
@@ -92,7 +94,7 @@ InputsOf(task) == CASE task = "b" -> <<<<"a", "a">>>> [] task = "c" -> <<<<"a", 
                     [] task = "m" -> <<<<"a", "a">>>> [] task = "n" -> <<<<"m", "m">>>> [] OTHER -> <<>>
 GroupOf(task) == CASE task = "b" -> <<"g">> [] task = "c" -> <<"h", "g">> [] OTHER -> <<>>
 ExtOf(task)   == CASE task = "b" -> ".npy" [] task = "c" -> ".pd" [] task = "d" -> "" [] task = "m" -> "none" [] OTHER -> ".json"
-Tasks == {"a", "a2", "b", "c", "d", "e", "f", "m", "n"}
+Tasks == {"a", "a2", "b", "c", "d", "e", "f", "h", "m", "n"}
 
 \* the key as a tree (H is applied by the binding): [params |-> text, inputs |-> <<[name, key tree of the input]>>]
 RECURSIVE KeyTree(_)
